@@ -22,7 +22,9 @@ if __name__ == '__main__':
             fr = verify_function(prog, db, q, c, case=case)
             if fr.degraded:
                 print('DEGRADED', q, fr.degraded)
-            res = smt.discharge(fr.obligations, timeout=int(os.environ.get('VK_TMO', '20')))
+            if os.environ.get('VK_ONLY'):
+                fr.obligations = [o for o in fr.obligations if any(x in o.id for x in os.environ['VK_ONLY'].split(';'))]
+            res = smt.discharge(fr.obligations, timeout=int(os.environ.get('VK_TMO', '20')), retry_timeout=int(os.environ.get('VK_RETRY', '90')))
             bad = 0
             for o, r in zip(fr.obligations, res):
                 ok = (r.verdict == 'unsat') if o.expect == 'unsat' else (r.verdict != 'unsat')
